@@ -620,7 +620,8 @@ def model_outcomes(proto, threads):
 def classify_p2(o):
     created = 'a' in (o.get('createdDirs') or [])
     exists = any(n[0] == 'a' and n[1] == 'dir' for n in o.get('tree') or [])
-    return 'created=%s count=2 exists=%s' % (str(created).lower(), str(exists).lower())
+    n = sum(1 for r in (o.get('results') or []) if r)
+    return 'created=%s count=%d exists=%s' % (str(created).lower(), n, str(exists).lower())
 
 
 def classify_p1(o):
